@@ -1,8 +1,8 @@
 #!/bin/sh
 # tools/confirm_seed.sh <ID> <a|b>   re-confirms a sub-agent's seeded change in ITS scratch worktree:
 #   clean tree: demo passes; with the change: unedited suite passes (150) and demo fails.
-ID="$1"; V="$2"; W=/tmp/seed/$ID; O=/tmp/seed/$ID-out
-export CARGO_TARGET_DIR=/tmp/seed/$ID-target CARGO_NET_OFFLINE=true
+ID="$1"; V="$2"; R="${SEED_ROOT:-/tmp/seed2}"; W=$R/$ID; O=$R/$ID-out
+export CARGO_TARGET_DIR=$R/$ID-target CARGO_NET_OFFLINE=true
 cd "$W" || exit 2
 git checkout -q -- src Cargo.toml 2>/dev/null
 mkdir -p "$O/aside"; for f in tests/seeded_demo_*.rs; do [ -f "$f" ] && mv "$f" "$O/aside/"; done
